@@ -82,6 +82,7 @@ type Req struct {
 	Exptime uint32
 	Opaque  uint32
 	Now     uint32
+	ValHead []byte // first bytes (up to 40) of the value of a storage request
 	Status  uint16 // status of the reply (also for quiet requests that produced none)
 	Replied bool
 	Faulted string
@@ -505,6 +506,12 @@ func (s *Store) applyLocked(f *frame, rq *Req) (*reply, bool) {
 		flags := binary.BigEndian.Uint32(f.extras[0:4])
 		exp := binary.BigEndian.Uint32(f.extras[4:8])
 		rq.Flags, rq.Exptime, rq.ValLen = flags, exp, len(f.value)
+		if n := len(f.value); n > 0 {
+			if n > 40 {
+				n = 40
+			}
+			rq.ValHead = append([]byte(nil), f.value[:n]...)
+		}
 		e := s.liveLocked(key)
 		switch op {
 		case OpAdd, OpAddQ:
